@@ -22,6 +22,8 @@ const CHAR_POOL: &[char] = &[
     'é', 'ß', 'ñ', 'ü', 'Ø', 'ž', 'ł', 'ő', 'Ж', 'я', 'ї', 'λ', 'Ω', 'ש', 'ب', 'ก', '中', '文', '日',
     '本', 'あ', 'カ', '한', '글', '\u{3000}', '€', '‰', '™', '\u{a0}', 'ı', 'İ', '😀', '𝔘', '\u{80}', 'ÿ',
     '¤', '½', 'ѓ', 'ў', 'ґ', '│', '╬', '√', 'ﬁ',
+    // supplementary planes 2, 3, 14, 16 and the ends of plane 1 (surrogate arithmetic)
+    '\u{20BB7}', '\u{2A6D6}', '\u{2F800}', '\u{30000}', '\u{E0041}', '\u{10FFFD}', '\u{10000}', '\u{1FFFD}', '\u{FFFD}', '\u{FFFF}', '\u{D7FF}', '\u{E000}',
 ];
 
 #[derive(Serialize, Deserialize, Clone, Debug)]
@@ -195,7 +197,39 @@ impl Prop for C17Prop {
         let mut scn = Scn { label, bom, text: String::new(), malformed_hex: String::new(), via_stdin };
         let enc = deciding(&scn)?;
         if stream == "malformed" {
-            let m = find_malformed(enc)?;
+            let mut m = find_malformed(enc)?;
+            match t.below(4) {
+                // odd number of bytes / truncated code unit at the very end
+                0 if enc == encoding_rs::UTF_16LE || enc == encoding_rs::UTF_16BE => {
+                    let mut v = utf16("procedure P;\nbegin\n  Foo;\nend;\n", enc == encoding_rs::UTF_16LE);
+                    v.push(*t.pick(&[0x20u8, 0x00, 0x61]));
+                    m = v;
+                }
+                // a large file with the malformed bytes early on, followed by kilobytes of
+                // valid text (decoders that work block-wise)
+                0 | 1 => {
+                    let unit = "procedure   Q;\nbegin\n  Foo( 1,2 );\nend;\n";
+                    let valid = unit.repeat(200 + t.below(2000) as usize);
+                    let body = encode(enc, &valid)?;
+                    let mut at = t.below((body.len() / 2) as u32) as usize;
+                    at -= at % 2; // stay on a code-unit boundary for UTF-16
+                    let mut v = body[..at].to_vec();
+                    v.extend_from_slice(&m);
+                    if v.len() % 2 == 1 && (enc == encoding_rs::UTF_16LE || enc == encoding_rs::UTF_16BE) {
+                        v.push(0x20);
+                    }
+                    v.extend_from_slice(&body[at..]);
+                    let (_, bad) = enc.decode_without_bom_handling(&v);
+                    if bad {
+                        m = v;
+                    }
+                }
+                _ => {}
+            }
+            let (_, bad) = enc.decode_without_bom_handling(&m);
+            if !bad {
+                return None;
+            }
             scn.malformed_hex = hex(&m);
         } else {
             // a small program with non-ASCII characters the encoding can represent
